@@ -130,7 +130,12 @@ func rxImpl(line string) string {
 	}
 	e := newRxEnv(ne, nv)
 	defer e.conn.VerifCancel()
+	send := false
 	for _, t := range f[3:] {
+		if t == "send" {
+			send = true
+			continue
+		}
 		if !e.feedPacket(t) {
 			return "bad-op"
 		}
@@ -161,7 +166,34 @@ func rxImpl(line string) string {
 	if eom {
 		em = 1
 	}
-	return fmt.Sprintf("D=[%s] E=%d H=[%s] PS=%d Q=%d/%d", strings.Join(del, " | "), nerr, strings.Join(e.hooks, " ; "), e.conn.PacketSize(), unread, em)
+	res := fmt.Sprintf("D=[%s] E=%d H=[%s] PS=%d Q=%d/%d", strings.Join(del, " | "), nerr, strings.Join(e.hooks, " ; "), e.conn.PacketSize(), unread, em)
+	if send {
+		// whatever the server announced, the next message of the client goes out (no crash, no endless loop)
+		done := make(chan string, 1)
+		go func() {
+			defer func() {
+				if r := recover(); r != nil {
+					done <- "panic"
+				}
+			}()
+			pkg := tds.NewTokenlessPackage()
+			pkg.Data.Write([]byte("select 1--"))
+			ctx, cancel := context.WithTimeout(context.Background(), 500*time.Millisecond)
+			defer cancel()
+			if err := e.ch.SendPackage(ctx, pkg); err != nil {
+				done <- "err"
+			} else {
+				done <- "ok"
+			}
+		}()
+		select {
+		case r := <-done:
+			res += " S=" + r
+		case <-time.After(1500 * time.Millisecond):
+			res += " S=blocked"
+		}
+	}
+	return res
 }
 
 // ---------------------------------------------------------------------------------------------
